@@ -1368,7 +1368,8 @@ Hwrite(int32 access_id, int32 length, const void *data)
 
     /* check validity of length and write data.
      NOTE: it is an error to attempt write past the end of the elt */
-    if (length <= 0 || (!access_rec->appendable && length + access_rec->posn > data_len))
+    if (length <= 0 || length > INT_MAX - access_rec->posn ||
+        (!access_rec->appendable && length + access_rec->posn > data_len))
         HGOTO_ERROR(DFE_BADSEEK, FAIL);
 
     /* check if element is appendable and write length exceeds current
@@ -1389,6 +1390,11 @@ Hwrite(int32 access_id, int32 length, const void *data)
                 HGOTO_ERROR(DFE_WRITEERROR, FAIL);
             goto done; /* we're finished, wrap things up */
         }              /* end if */
+
+        /* the element grows in place: its end, which is the end of the file, has to stay
+           within what a signed 32-bit offset can hold */
+        if (access_rec->posn + length > INT_MAX - data_off)
+            HGOTO_ERROR(DFE_NOSPACE, FAIL);
 
         /* Update the DD with the new length. Note argument of '-2' for
            the offset parameter means not to change the offset in the DD. */
@@ -2923,6 +2929,10 @@ HPgetdiskblock(filerec_t *file_rec, int32 block_size, int moveto)
     /* check for valid arguments */
     if (file_rec == NULL || block_size < 0)
         HGOTO_ERROR(DFE_ARGS, FAIL);
+
+    /* offsets are signed 32-bit quantities in the file: the end of the file cannot move beyond 2^31-1 */
+    if (block_size > INT_MAX - file_rec->f_end_off)
+        HGOTO_ERROR(DFE_NOSPACE, FAIL);
 
 #ifdef DISKBLOCK_DEBUG
     block_size += (DISKBLOCK_HSIZE + DISKBLOCK_TSIZE);
